@@ -152,10 +152,25 @@ func (p *parser) parse() (*Pat, error) {
 
 var commutative = map[string]bool{"eq": true, "ne": true, "binop:+": true, "binop:*": true, "binop:&": true, "binop:|": true}
 
+var globCache = map[[2]string]bool{}
+
 func globMatch(glob, s string) bool {
-	if !strings.ContainsAny(glob, "*?[") {
-		return glob == s
+	if glob == s {
+		return true
 	}
+	if !strings.ContainsAny(glob, "*?[") {
+		return false
+	}
+	k := [2]string{glob, s}
+	if v, ok := globCache[k]; ok {
+		return v
+	}
+	v := globMatchSlow(glob, s)
+	globCache[k] = v
+	return v
+}
+
+func globMatchSlow(glob, s string) bool {
 	// path.Match treats '/' specially; replace it.
 	g := strings.ReplaceAll(glob, "/", "\x01")
 	x := strings.ReplaceAll(s, "/", "\x01")
